@@ -145,3 +145,89 @@ class Hooks:
 
     def cache_len(self):
         return len(self.ac._fuseinfos)
+
+
+# ---- key-collision hunt ------------------------------------------------------------------
+def key_collision_hunt(ctx, hooks, rng, ncalls):
+    """Stress the fuse-plan cache KEY, not the plans: issue `ncalls` cache look-ups for distinct
+    (array, grouping) arguments with the plan computation stubbed out, while a recorder on the
+    library's key digest function remembers digest -> key material. Two different key materials
+    with one digest are a latent false cache hit; each such pair is then replayed for real
+    (cold cache, first grouping, second grouping) under the plan hook, which compares the plan
+    handed out with a fresh computation. -> (look-ups, collisions found, collisions replayed)"""
+    import itertools
+    import pickle
+
+    from . import gen
+
+    ac = hooks.ac
+    sr = ctx.sr
+    sym = rng.choice(["Z2", "Z2", "U1", "Z2Z2"])
+    nd = 7
+    idx = [gen.rand_index(sr, rng, sym, maxc=2, maxd=2, p_single=0.0, minc=2) for _ in range(nd)]
+    x = gen.make_array(sr, rng, sym, idx, fermionic=rng.random() < 0.3, values=gen.Values(rng, "int"), sparsity=rng.choice([0.3, 0.5]), exotic=False)
+    if len(x.blocks) < 4:
+        return 0, 0, 0
+    seen = {}
+    collisions = []
+    orig_hasher = ac.hasher
+
+    def recorder(k):
+        d = orig_hasher(k)
+        try:
+            mat = pickle.dumps(k)
+        except Exception:
+            return d
+        prev = seen.get(d)
+        if prev is None:
+            seen[d] = (mat, k[-1] if isinstance(k, tuple) and len(k) == 4 else None)
+        elif prev[0] != mat and prev[1] is not None and isinstance(k, tuple) and len(k) == 4:
+            collisions.append((prev[1], k[-1]))
+        return d
+
+    orig_calc = ac.calc_fuse_block_info
+    SENT = ("stub",)
+    saved_cache = dict(ac._fuseinfos)
+    saved_size = ac._fuseinfo_cache_maxsize
+    cached = getattr(ac.cached_fuse_block_info, "__wrapped__", ac.cached_fuse_block_info)  # below the plan hook
+    n = 0
+    try:
+        ac.hasher = recorder
+        ac.calc_fuse_block_info = lambda arr, groups: SENT
+        ac._fuseinfo_cache_maxsize = 10**9
+        ac._fuseinfos.clear()
+        axes = list(range(nd))
+        while n < ncalls:
+            k1 = rng.randint(1, 4)
+            k2 = rng.randint(0, min(3, nd - k1))
+            p_ = rng.sample(axes, k1 + k2)
+            groups = (tuple(p_[:k1]),) + ((tuple(p_[k1:]),) if k2 else ())
+            cached(x, groups)
+            n += 1
+            if len(collisions) >= 3:
+                break
+    finally:
+        ac.hasher = orig_hasher
+        ac.calc_fuse_block_info = orig_calc
+        ac._fuseinfo_cache_maxsize = saved_size
+        ac._fuseinfos.clear()
+        ac._fuseinfos.update(saved_cache)
+    replayed = 0
+    for g1, g2 in collisions[:3]:
+        # real replay: the plan hook (if installed) judges the second plan against a fresh one
+        hooks.set_cache(maxsize=8192, clear=True)
+        o1 = ctx.call(lambda: x.fuse(*g1))
+        o2 = ctx.call(lambda: x.fuse(*g2))
+        replayed += 1
+        if o1.ok and o2.ok:
+            hooks.set_cache(maxsize=0, clear=True)
+            o3 = ctx.call(lambda: x.fuse(*g2))
+            from .dense import describe, snapshot
+
+            if o3.ok and snapshot(o3.value) != snapshot(o2.value):
+                ctx.violation("cache-key-collision-false-hit", f"fuse{g2} after fuse{g1} (both keys have the same digest) differs from the cache-free fuse{g2}", {"x": describe(x), "groups_1": repr(g1), "groups_2": repr(g2)})
+        elif o1.ok and not o2.ok:
+            from .dense import describe
+
+            ctx.violation("cache-key-collision-false-hit", f"fuse{g2} after fuse{g1} (both keys have the same digest) raised {o2.exc!r}", {"x": describe(x), "groups_1": repr(g1), "groups_2": repr(g2)})
+    return n, len(collisions), replayed
